@@ -131,7 +131,7 @@ static void inv_enc(const char *after)
 	const MPT_STRUCT(queue) *q = &C.eq.data;
 	vf_count("monitor:enc-invariant", 1);
 	VF_CHECK(q->len <= q->max, "model:encode_queue:len-exceeds-max", "after %s: %s", after, edesc());
-	VF_CHECK(q->off < q->max || !q->max || (!q->len && q->off == q->max), "model:encode_queue:offset-outside", "after %s: %s", after, edesc());
+	VF_CHECK(q->off <= q->max, "model:encode_queue:offset-outside", "after %s: %s", after, edesc());
 	VF_CHECK(C.eq._state.done + C.eq._state.scratch == q->len, "model:encode_queue:done-scratch-mismatch",
 	         "after %s: done + scratch != queue length: %s", after, edesc());
 	if (wrapped(q)) { C.enc_wrapped = 1; vf_count("state:enc-wrapped", 1); }
@@ -142,7 +142,7 @@ static void inv_dec(const char *after)
 	const MPT_STRUCT(decode_state) *s = &C.dq._state;
 	vf_count("monitor:dec-invariant", 1);
 	VF_CHECK(q->len <= q->max, "model:decode_queue:len-exceeds-max", "after %s: %s", after, ddesc());
-	VF_CHECK(q->off < q->max || !q->max || (!q->len && q->off == q->max), "model:decode_queue:offset-outside", "after %s: %s", after, ddesc());
+	VF_CHECK(q->off <= q->max, "model:decode_queue:offset-outside", "after %s: %s", after, ddesc());
 	VF_CHECK(s->curr <= q->len, "model:decode_queue:curr-outside", "after %s: %s", after, ddesc());
 	VF_CHECK(s->data.pos <= s->curr && s->data.len <= s->curr - s->data.pos, "model:decode_queue:data-outside",
 	         "after %s: decoded area not in front of input position: %s", after, ddesc());
@@ -434,6 +434,7 @@ static void check_message(int idx, const char *when)
 	        "%s (%s): message %d: got %zu bytes %s, sent %zu bytes %s; wire frame %s; %s", when, framing[C.fr].name, idx,
 	        n, vf_hex(hx1, sizeof(hx1), got, n), C.msg[idx].n, vf_hex(hx2, sizeof(hx2), C.msg[idx].d, C.msg[idx].n), frame_hex(idx), ddesc());
 }
+static void check_partial(const char *when);
 static void stall_check(const char *what)
 {
 	int j = C.received; /* frame that should come next */
@@ -485,6 +486,7 @@ static int do_recv(void)
 	if (!ret) {
 		vf_count("recv:incomplete", 1);
 		C.pending = 0;
+		check_partial("after mpt_queue_recv = 0");
 		stall_check("mpt_queue_recv = 0");
 		return 0;
 	}
@@ -497,6 +499,120 @@ static int do_recv(void)
 	C.futile = 0;
 	return 1;
 }
+/* decoded part of the message in progress is a prefix of the next message to come
+ * (Appendix A: [data.pos, +data.len) = decoded bytes of the current message) */
+static void check_partial(const char *when)
+{
+	const MPT_STRUCT(decode_state) *s = &C.dq._state;
+	static uint8_t got[MAXLEN + 16];
+	size_t n = s->data.len;
+	int idx = C.received, ret;
+
+	if (s->data.msg >= 0 || !n) return;
+	vf_count("monitor:partial-prefix", 1);
+	if (idx >= C.nmsg) {
+		vf_fail("model:queue_recv:phantom-message", "%s: %zu decoded bytes of a message %d, only %d were sent; %s", when, n, idx, C.nmsg, ddesc());
+	}
+	VF_CHECK(n <= C.msg[idx].n, "model:queue_recv:partial-too-long", "%s (%s): %zu bytes decoded for message %d of %zu bytes; wire frame %s; %s",
+	         when, framing[C.fr].name, n, idx, C.msg[idx].n, frame_hex(idx), ddesc());
+	vf_at("mpt_queue_get");
+	ret = mpt_queue_get(&C.dq.data, s->data.pos, n, got);
+	VF_CHECK(ret >= 0, "model:queue_get:refused", "%s: get(%zu,%zu) = %d on %s", when, s->data.pos, n, ret, ddesc());
+	if (memcmp(got, C.msg[idx].d, n)) {
+		size_t i;
+		for (i = 0; i < n && got[i] == C.msg[idx].d[i]; i++) ;
+		vf_fail("model:queue_recv:partial-content", "%s (%s): decoded part of message %d differs at byte %zu of %zu: got ..%s, sent ..%s; %s", when,
+		        framing[C.fr].name, idx, i, n, vf_hex(hx1, 100, got + (i > 8 ? i - 8 : 0), n - (i > 8 ? i - 8 : 0)),
+		        vf_hex(hx2, 100, C.msg[idx].d + (i > 8 ? i - 8 : 0), C.msg[idx].n - (i > 8 ? i - 8 : 0)), ddesc());
+	}
+}
+/* preview: mpt_queue_peek() may decode the next block of the message in progress.
+ * Asserted: returns the decoded length (== state), copies nothing but a prefix of the
+ * message to come, does not touch a message that waits to be fetched. */
+static void do_peek(vf_rng *r)
+{
+	MPT_STRUCT(decode_state) before = C.dq._state;
+	const MPT_STRUCT(decode_state) *s = &C.dq._state;
+	size_t qlen = C.dq.data.len, max, n, i, copied = 0, kept = 0;
+	uint8_t *dst = 0;
+	const msg_t *m = 0;
+	ssize_t ret;
+	int idx = before.data.msg >= 0 ? C.received - 1 : C.received;
+
+	switch (vf_below(r, 4)) {
+	case 0: max = 0; break;
+	case 1: max = 1 + vf_below(r, 8); break;
+	default: max = 1 + vf_below(r, 600); break;
+	}
+	if (idx >= 0 && idx < C.nmsg) m = &C.msg[idx];
+	if (vf_chance(r, 3, 4)) {
+		dst = vf_xalloc(max);
+		/* complement of what may be copied: tells "untouched" from "copied" */
+		for (i = 0; i < max; i++) dst[i] = (m && i < m->n) ? (uint8_t) ~m->d[i] : 0xEE;
+	}
+	vf_at("mpt_queue_peek");
+	vf_count("mpt_queue_peek", 1);
+	ret = mpt_queue_peek(&C.dq, max, dst);
+	vf_fp_u64(0x4000000 | max);
+	vf_log("peek(%zu,%s) = %s | %s", max, dst ? "buf" : "null", ret < 0 ? errname(ret) : "len", ddesc());
+	VF_CHECK(C.dq.data.len == qlen, "model:queue_peek:queue-length-changed", "peek changed queue length %zu -> %zu", qlen, C.dq.data.len);
+	if (!qlen) {
+		VF_CHECK(ret == MPT_ERROR(MissingData), "model:queue_peek:empty", "peek on empty queue = %zd", ret);
+		vf_xfree(dst, max);
+		return;
+	}
+	inv_dec("mpt_queue_peek");
+	/* with a target the number of bytes copied comes back, else the decoded length */
+	VF_CHECK(ret >= 0 && ((size_t) ret == s->data.len || (dst && (size_t) ret == max && max < s->data.len)),
+	         "model:queue_peek:return", "peek(%zu) = %zd, decoded length is %zu; %s", max, ret, s->data.len, ddesc());
+	if (before.data.msg >= 0) {
+		VF_CHECK(!memcmp(&before, s, sizeof(before)), "model:queue_peek:pending-message-state-changed",
+		         "peek with a message waiting changed the decoder state: pos %zu->%zu len %zu->%zu msg %zd->%zd curr %zu->%zu",
+		         before.data.pos, s->data.pos, before.data.len, s->data.len, before.data.msg, s->data.msg, before.curr, s->curr);
+		vf_count("peek:message-waiting", 1);
+	} else {
+		VF_CHECK(s->data.msg < 0 && s->data.pos == before.data.pos && s->data.len >= before.data.len && s->curr >= before.curr,
+		         "model:queue_peek:state", "peek moved the decoder backwards / made a message: pos %zu->%zu len %zu->%zu msg %zd->%zd curr %zu->%zu",
+		         before.data.pos, s->data.pos, before.data.len, s->data.len, before.data.msg, s->data.msg, before.curr, s->curr);
+		if (s->data.len > before.data.len) vf_count("peek:decoded-more", 1);
+	}
+	if (dst) {
+		n = (size_t) ret < max ? (size_t) ret : max;
+		for (i = 0; i < max; i++) {
+			uint8_t exp = (m && i < m->n) ? m->d[i] : 0x11, keep = (m && i < m->n) ? (uint8_t) ~m->d[i] : 0xEE;
+			if (i < n && dst[i] == exp && m && i < m->n) copied++;
+			else if (dst[i] == keep) kept++;
+			else vf_fail("model:queue_peek:copied-data", "peek(%zu) = %zd: target byte %zu is %02x, message %d has %02x there (untouched would be %02x); %s",
+			             max, ret, i, dst[i], idx, exp, keep, ddesc());
+		}
+		VF_CHECK(!copied || copied == n, "model:queue_peek:copied-partly", "peek(%zu) = %zd copied %zu bytes", max, ret, copied);
+		if (copied) vf_count("peek:copied", 1);
+		vf_count("monitor:peek-data", 1);
+	}
+	vf_xfree(dst, max);
+	check_partial("after mpt_queue_peek");
+	if (C.pending && s->data.msg >= 0) check_message(C.received - 1, "after mpt_queue_peek");
+}
+/* the rings are the caller's: rotating content to another offset keeps all positions (relative to queue start) */
+static void do_rotate(vf_rng *r, int enc)
+{
+	MPT_STRUCT(queue) *q = enc ? &C.eq.data : &C.dq.data;
+	size_t pos;
+	if (!q->max) return;
+	pos = vf_below(r, (uint32_t) q->max);
+	if (vf_chance(r, 1, 3) && q->len) pos = q->max - 1 - vf_below(r, (uint32_t) (q->len < q->max ? q->len : q->max - 1));
+	vf_at("mpt_queue_align");
+	vf_count(enc ? "mpt_queue_align(enc)" : "mpt_queue_align(dec)", 1);
+	mpt_queue_align(q, pos);
+	vf_fp_u64(0x5000000 | pos);
+	vf_log("align(%s, %zu) | %s", enc ? "enc" : "dec", pos, enc ? edesc() : ddesc());
+	if (enc) inv_enc("mpt_queue_align");
+	else {
+		inv_dec("mpt_queue_align");
+		check_partial("after mpt_queue_align");
+		if (C.pending && C.dq._state.data.msg >= 0) check_message(C.received - 1, "after mpt_queue_align");
+	}
+}
 static void do_shift(void)
 {
 	vf_at("mpt_queue_shift");
@@ -504,6 +620,7 @@ static void do_shift(void)
 	mpt_queue_shift(&C.dq);
 	vf_log("shift | %s", ddesc());
 	inv_dec("mpt_queue_shift");
+	check_partial("after mpt_queue_shift");
 	if (C.pending && C.dq._state.data.msg >= 0) check_message(C.received - 1, "after mpt_queue_shift");
 }
 static void do_reget(void)
@@ -551,7 +668,7 @@ static void run_case(uint64_t idx, vf_rng *r, int fr, size_t ecap, size_t eoff, 
 	static const uint16_t grows[] = { 1, 2, 7, 16, 64, 256 };
 	unsigned wp, wm, wr, ws;   /* step weights: push, move, recv, shift/reget */
 	size_t total = 0;
-	int i, abandoned = 0;
+	int i, abandoned = 0, rot;
 	unsigned long limit;
 
 	memset(&C, 0, sizeof(C));
@@ -575,7 +692,8 @@ static void run_case(uint64_t idx, vf_rng *r, int fr, size_t ecap, size_t eoff, 
 	}
 	C.wire = malloc(WIREMAX);
 	/* schedule mood */
-	wp = 1 + vf_below(r, 8); wm = 1 + vf_below(r, 8); wr = 1 + vf_below(r, 8); ws = vf_below(r, 3);
+	wp = 1 + vf_below(r, 8); wm = 1 + vf_below(r, 8); wr = 1 + vf_below(r, 8); ws = vf_below(r, 4);
+	rot = vf_chance(r, 1, 2);
 	vf_fp_u64(fr); vf_fp_u64(ecap); vf_fp_u64(C.eq.data.off); vf_fp_u64(dcap); vf_fp_u64(C.dq.data.off);
 	vf_log("case: %s enc{max=%zu off=%zu grow=%zu} dec{max=%zu off=%zu grow=%zu} %d messages, %zu bytes, weights %u/%u/%u/%u",
 	       framing[fr].name, ecap, C.eq.data.off, C.egrow, dcap, C.dq.data.off, C.dgrow, nmsg, total, wp, wm, wr, ws);
@@ -599,12 +717,16 @@ static void run_case(uint64_t idx, vf_rng *r, int fr, size_t ecap, size_t eoff, 
 				}
 			}
 		} else if (k < wp + wm + wr) {
+			/* an empty ring has nothing to say: look at it only now and then */
+			if (!C.dq.data.len && !vf_chance(r, 1, 16)) continue;
 			do_reget();
 			do_recv();
-		} else if (vf_chance(r, 1, 2)) {
-			do_shift();
-		} else {
-			do_reget();
+		} else switch (vf_below(r, 8)) {
+			case 0: case 1: do_shift(); break;
+			case 2: do_reget(); break;
+			case 3: case 4: case 5: do_peek(r); break;
+			case 6: if (rot) do_rotate(r, 1); break;
+			default: if (rot) do_rotate(r, 0); break;
 		}
 		if (C.futile < 0) { abandoned = 1; break; }
 	}
@@ -649,7 +771,7 @@ static uint64_t n_grid(void)
 	for (size_t c = 4; c <= grid_max(); c++) n += c;
 	return n * 4;
 }
-static uint64_t n_hist(void) { return vf_thorough ? 150000 : 6000; }
+static uint64_t n_hist(void) { return vf_thorough ? 600000 : 40000; }
 
 uint64_t vf_cases(void) { return n_grid() + n_hist(); }
 
